@@ -1,6 +1,7 @@
 import CprocVerif.Lemmas.InitEmit3
 import CprocVerif.Lemmas.InitDec
 import CprocVerif.Lemmas.InitParse2
+import CprocVerif.Lemmas.InitRefClass
 
 /-!
 # C07 — initialised objects contain exactly the specified initial image
@@ -363,5 +364,122 @@ example : EvsOK [] exEvs ∧ ∀ i ∈ adds exEvs, Wf 12 i := evsOK_of_evsOKB (b
 example : bytes (emitItems 12 (exEvs.foldl applyEv [])) =
     [.byte 0, .byte 0, .byte 0, .byte 0, .byte 2, .byte 0, .byte 0, .byte 0, .byte 0, .byte 0, .byte 0, .byte 0] := by
   decide
+
+/-! ## (d) `parseinit` refines C11 6.7.9: the cursor machine against `Spec/InitRef`
+
+The statements above are about the model's own list of initialisers.  The theorems below say
+that this list is the one C11 6.7.9 prescribes: the image of `parseinit`'s event log (every
+`initclear` read as a write of zeros) equals the image of the writes of the independent,
+recursive, type-directed reference `InitRef.ref` — for EVERY type of the member language
+(structs, unions, arrays, bit-fields, anonymous members, nesting of any depth) and EVERY
+initialiser tree of the class, of any length: fully braced or with braces elided at any level
+(6.7.9p20), fewer initialisers than members, string literals for character arrays (braced or not),
+struct/union values, empty braces.  The class is given by decidable predicates
+(`Spec/InitClass.lean`); `Drv/C07.lean` evaluates them for every generated object. -/
+
+open CprocVerif.InitRef CprocVerif.InitSim
+
+/-- **`parseinit_refines_ref`** (objects of known size, no designators).  Hypotheses: the type is
+well formed (`tyWf`: arrays have at least one element of non-zero size, structs/unions have a
+member, only scalar members carry bit-field positions), the initialiser has no designator
+(`noDesig`), and at the top level it is a braced list or an expression for the whole object
+(`topOK`).  Then the model's object has the size and, byte for byte, the image that the reference
+reading of 6.7.9 gives. -/
+theorem parseinit_refines_ref {t : Ty} {i : Ini} {st : St} {r : InitRef.Result}
+    (hm : parseinit t false i = .ok st) (hr : InitRef.ref t false i = .ok r)
+    (hwf : tyWf t = true) (hnd : noDesig i = true) (htop : topOK t i = true) :
+    st.top = r.size ∧ image st.top (st.log.map evWrite) = image r.size r.writes := by
+  have hok := okI_of i hnd
+  obtain ⟨h1, h2⟩ := refines_core hm hr (nswitch_zero hr hok) hwf hok htop
+  exact ⟨h1, by rw [h1]; exact h2.image _⟩
+
+/-- The same with the class as one decidable predicate (what the `class` op of the driver
+evaluates). -/
+theorem parseinit_refines_ref_class {t : Ty} {i : Ini} {st : St} {r : InitRef.Result}
+    (hc : refClass t false i = true) (hm : parseinit t false i = .ok st) (hr : InitRef.ref t false i = .ok r) :
+    st.top = r.size ∧ image st.top (st.log.map evWrite) = image r.size r.writes := by
+  simp only [refClass, Bool.not_false, Bool.true_and, Bool.and_eq_true] at hc
+  exact parseinit_refines_ref hm hr hc.1.1 hc.1.2 hc.2
+
+/-- End to end: where the model's log also satisfies the hypotheses of `emitdata_image_ev` (the
+driver reports them for every input: `hyp`), the bytes `emitdata` prints for the list that
+`initadd`/`initclear` built are the image C11 prescribes. -/
+theorem emitdata_refines_ref {t : Ty} {i : Ini} {st : St} {r : InitRef.Result}
+    (hm : parseinit t false i = .ok st) (hr : InitRef.ref t false i = .ok r)
+    (hwf : tyWf t = true) (hnd : noDesig i = true) (htop : topOK t i = true)
+    (hok : EvsOK [] st.log) (hw : ∀ x ∈ adds st.log, Wf st.top x) :
+    bytes (emitItems st.top (st.log.foldl applyEv [])) = image r.size r.writes := by
+  rw [(emitdata_image_ev hok hw).2]
+  exact (parseinit_refines_ref hm hr hwf hnd htop).2
+
+/-! ### non-vacuity: a nested struct/array value with elided braces, a bit-field and a string -/
+
+def tInt : Ty := .scalar 4 (.int 6 true)
+def tChar : Ty := .scalar 1 (.int 1 true)
+def tShort : Ty := .scalar 2 (.int 4 true)
+def numI (n : Int) : Ini := .expr (.num n (n != 0) 0 0)
+
+/-- `struct P { short x; int y[2]; }` -/
+def exP : Ty := .agg false 2 12 (.cons (some "x") tShort 0 0 0 (.cons (some "y") (.array 2 tInt) 4 0 0 .nil))
+/-- `struct { char a; int b:4; struct P p[2]; char s[4]; }` -/
+def exT : Ty := .agg false 1 36 (.cons (some "a") tChar 0 0 0 (.cons (some "b") tInt 0 8 20
+  (.cons (some "p") (.array 2 exP) 4 0 0 (.cons (some "s") (.array 4 tChar) 28 0 0 .nil))))
+/-- `{ 1, 3, { {1, {2, 3}}, 4, 5, 6 }, "ab" }`: the second element of `p` and its array have no
+braces of their own -/
+def exI : Ini := .list (.cons [] (numI 1) (.cons [] (numI 3)
+  (.cons [] (.list (.cons [] (.list (.cons [] (numI 1) (.cons [] (.list (.cons [] (numI 2) (.cons [] (numI 3) .nil))) .nil)))
+    (.cons [] (numI 4) (.cons [] (numI 5) (.cons [] (numI 6) .nil)))))
+  (.cons [] (.expr (.str 1 1 [97, 98, 0])) .nil))))
+
+def isOk {ε α} : Except ε α → Bool
+  | .ok _ => true
+  | .error _ => false
+
+-- the hypotheses of `parseinit_refines_ref` / `parseinit_refines_ref_class`
+example : refClass exT false exI = true := by decide +kernel
+example : tyWf exT = true ∧ noDesig exI = true ∧ topOK exT exI = true := by decide +kernel
+example : isOk (parseinit exT false exI) = true ∧ isOk (InitRef.ref exT false exI) = true := by decide +kernel
+-- brace elision really occurs in the example: it is not fully braced
+example : fullyBraced exT exI = false := by decide +kernel
+
+/-! ### what the hypothesis `noDesig` still excludes
+
+With designators the statement needs the hypothesis that no second member of a union is
+designated (known finding `union-member-switch`, upstream todo/38): `union { int a; char b[8]; }
+u = {.a = 7, .b[5] = 9};` keeps `a` in the model (= the code), the reference (= gcc, clang) zeroes
+the union when the second member is designated. -/
+
+def parseinit_refines_ref_full : Prop :=
+  ∀ (t : Ty) (i : Ini) (st : St) (r : InitRef.Result), parseinit t false i = .ok st → InitRef.ref t false i = .ok r →
+    tyWf t = true → topOK t i = true → image st.top (st.log.map evWrite) = image r.size r.writes
+
+def exU : Ty := .agg true 3 8 (.cons (some "a") tInt 0 0 0 (.cons (some "b") (.array 8 tChar) 0 0 0 .nil))
+def exUI : Ini := .list (.cons [.fld "a"] (numI 7) (.cons [.fld "b", .idx 5] (numI 9) .nil))
+
+def imgM (t : Ty) (i : Ini) : Option (List Cell) :=
+  match parseinit t false i with
+  | .ok st => some (image st.top (st.log.map evWrite))
+  | .error _ => none
+def imgR (t : Ty) (i : Ini) : Option (List Cell) :=
+  match InitRef.ref t false i with
+  | .ok r => some (image r.size r.writes)
+  | .error _ => none
+
+theorem parseinit_refines_ref_counterexample : ¬ parseinit_refines_ref_full := by
+  intro h
+  have key : imgM exU exUI ≠ imgR exU exUI ∧ isOk (parseinit exU false exUI) = true ∧
+      isOk (InitRef.ref exU false exUI) = true := by decide +kernel
+  cases hm : parseinit exU false exUI with
+  | error e => rw [hm] at key; simp [isOk] at key
+  | ok st =>
+    cases hr : InitRef.ref exU false exUI with
+    | error e => rw [hr] at key; simp [isOk] at key
+    | ok r =>
+      have := h exU exUI st r hm hr (by decide +kernel) (by decide +kernel)
+      apply key.1
+      unfold imgM imgR
+      rw [hm, hr]
+      simp only []
+      rw [this]
 
 end CprocVerif.C07
